@@ -9,6 +9,7 @@ An op list is plain data (replayable): each op is a tuple
   ('ins', pos, bytes)           insert bytes
   ('del', pos, n)               delete n bytes
   ('dup', start, end, pos)      splice a copy of [start:end) in at pos
+  ('fill', pos, n, byte)        overwrite n bytes starting at pos with one byte value
   ('neg', span_idx, k)          length prefix := -k, its value and the next k bytes removed (the next element then starts
                                 inside the prefix: the overlapping-elements shape)
 Positions are clamped to the current length, so every op list applies to every message.
@@ -19,6 +20,7 @@ from vlib import codecs_, refcodec
 from vlib.strat import uniform
 
 NUMERAL_KINDS = ('len', 'pds_len', 'tlv_len')
+FILL_BYTES = [0x20, 0x09, 0x0a, 0x0d, 0x00, 0xff, 0x40, 0x30, 0x2d, 0x5f, 0x66, 0x46, 0x67, 0xf0]
 
 
 def frames_of(config, codec, hexbm, data):
@@ -47,6 +49,10 @@ def apply(data, ops, frames, codec, hexbm):
                     enc = enc[:1] or b'\x00'
                 if e <= n:
                     data[s:e] = (enc + b'0' * (e - s))[:e - s] if len(enc) < e - s else enc[:e - s]
+        elif kind == 'fill':
+            p = min(op[1], n)
+            m = min(op[2], n - p)
+            data[p:p + m] = bytes([op[3]]) * m
         elif kind == 'neg':
             lens = [i for i, f in enumerate(frames) if f[0] == 'len']
             if lens:
@@ -117,7 +123,7 @@ def op_lists(draw, data_len, frames, codec, min_ops=1, max_ops=4):
     ops = []
     k = draw(uniform(min_ops, max_ops))
     for _ in range(k):
-        choices = ['sub', 'sub', 'bit', 'trunc', 'ext', 'ins', 'del', 'dup']
+        choices = ['sub', 'sub', 'bit', 'trunc', 'ext', 'ins', 'del', 'dup', 'fill', 'bmfill']
         if nums:
             choices += ['num', 'num', 'num', 'numsub', 'numsub']
         if any(f[0] == 'len' for f in frames):
@@ -137,6 +143,11 @@ def op_lists(draw, data_len, frames, codec, min_ops=1, max_ops=4):
                 ops.append(('num', idx, draw(st.sampled_from(numeral_texts(codec, width)))))
         elif kind == 'neg':
             ops.append(('neg', draw(uniform(0, 30)), draw(uniform(1, 12))))
+        elif kind == 'fill':
+            ops.append(('fill', draw(uniform(0, max(0, data_len - 1))), draw(uniform(2, 6)), draw(st.sampled_from(FILL_BYTES))))
+        elif kind == 'bmfill':
+            # a run inside the bitmap (bytes 4..36 cover both renderings), aligned or not
+            ops.append(('fill', draw(uniform(4, 35)), draw(st.sampled_from([2, 2, 3, 4, 8, 32])), draw(st.sampled_from(FILL_BYTES))))
         elif kind == 'bit':
             ops.append(('bit', draw(st.one_of(st.sampled_from([1, 2, 64, 65, 127, 128]), uniform(1, 128)))))
         elif kind == 'trunc':
